@@ -502,3 +502,120 @@ Proof.
     apply in_map_iff. exists e. split; [reflexivity|]. apply filter_In. split; [exact He|].
     unfold is_shlib. rewrite H1, H2. reflexivity.
 Qed.
+
+(* ------------------------------------------------------------------ the dep-info run sees the request *)
+
+Theorem depinfo_args_complete : forall args p,
+  In p args -> name_in depinfo_dropped p = false ->
+  (forall piece, In piece (pieces_of p) -> In piece (depinfo_args args)).
+Proof.
+  intros args p Hin Hn piece Hp. unfold depinfo_args. apply in_flat_map. exists p. split; [|exact Hp].
+  apply filter_In. split; [exact Hin|]. rewrite Hn. reflexivity.
+Qed.
+
+Lemma depinfo_args_app a b : depinfo_args (a ++ b) = depinfo_args a ++ depinfo_args b.
+Proof. unfold depinfo_args. rewrite filter_app, flat_map_app. reflexivity. Qed.
+
+(* ------------------------------------------------------------------ archives *)
+
+(* two archives with the same member names and data lengths, member by member: equal pre-images only if every
+   member's data is equal — also for members that share a name, also for the earlier one of them *)
+Theorem archive_preimage_inj : forall m1 m2 : list (bytes * bytes),
+  map (fun m => (fst m, length (snd m))) m1 = map (fun m => (fst m, length (snd m))) m2 ->
+  archive_preimage m1 = archive_preimage m2 -> m1 = m2.
+Proof.
+  induction m1 as [|[n1 d1] m1 IH]; intros [|[n2 d2] m2] Hs H; cbn [map] in Hs; try discriminate; [reflexivity|].
+  injection Hs as Hn Hl Hr. cbn [fst snd] in *. subst n2.
+  unfold archive_preimage in H. cbn [flat_map fst snd] in H. rewrite <- !app_assoc in H.
+  apply app_inv_head in H. apply app_eq_len in H as [E R]; [|exact Hl]. subst. f_equal. apply IH; assumption.
+Qed.
+
+(* ------------------------------------------------------------------ --extern order *)
+
+Lemma comp_cmp_eq a b : comp_cmp a b = Eq -> a = b.
+Proof.
+  destruct a, b; simpl; intro H; try reflexivity; try discriminate. f_equal. apply bytes_cmp_eq. exact H.
+Qed.
+
+Lemma comp_cmp_refl a : comp_cmp a a = Eq.
+Proof. destruct a; simpl; try reflexivity. apply bytes_cmp_refl. Qed.
+
+Lemma comp_cmp_antisym a b : comp_cmp b a = CompOpp (comp_cmp a b).
+Proof. destruct a, b; simpl; try reflexivity. apply bytes_cmp_antisym. Qed.
+
+Lemma comp_cmp_trans a b c o : comp_cmp a b = o -> comp_cmp b c = o -> comp_cmp a c = o.
+Proof.
+  destruct a, b, c; cbv -[bytes_cmp]; try congruence; try (intros; subst; discriminate). apply bytes_cmp_trans.
+Qed.
+
+Lemma comps_cmp_eq a : forall b, comps_cmp a b = Eq -> a = b.
+Proof.
+  induction a as [|x a IH]; intros [|y b] H; simpl in H; try discriminate; [reflexivity|].
+  destruct (comp_cmp x y) eqn:E; try discriminate. apply comp_cmp_eq in E. subst. f_equal. apply IH. exact H.
+Qed.
+
+Lemma comps_cmp_refl a : comps_cmp a a = Eq.
+Proof. induction a as [|x a IH]; simpl; [reflexivity|]. rewrite comp_cmp_refl. exact IH. Qed.
+
+Lemma comps_cmp_antisym a : forall b, comps_cmp b a = CompOpp (comps_cmp a b).
+Proof.
+  induction a as [|x a IH]; intros [|y b]; simpl; try reflexivity.
+  rewrite (comp_cmp_antisym x y). destruct (comp_cmp x y); simpl; try reflexivity. apply IH.
+Qed.
+
+Lemma comps_cmp_trans a : forall b c o, comps_cmp a b = o -> comps_cmp b c = o -> comps_cmp a c = o.
+Proof.
+  induction a as [|x a IH]; intros [|y b] [|z c] o H1 H2; simpl in *; try congruence.
+  destruct (comp_cmp x y) eqn:E1; destruct (comp_cmp y z) eqn:E2;
+    try (apply comp_cmp_eq in E1; subst y); try (apply comp_cmp_eq in E2; subst z);
+    rewrite ?E1, ?E2, ?comp_cmp_refl; try congruence.
+  - eapply IH; eassumption.
+  - rewrite (comp_cmp_trans x y z Lt E1 E2). congruence.
+  - rewrite (comp_cmp_trans x y z Gt E1 E2). congruence.
+Qed.
+
+Definition comps_leb (a b : list comp) : bool := match comps_cmp a b with Gt => false | _ => true end.
+
+Lemma comps_leb_total a b : comps_leb a b = true \/ comps_leb b a = true.
+Proof. unfold comps_leb. rewrite (comps_cmp_antisym a b). destruct (comps_cmp a b); simpl; auto. Qed.
+
+Lemma comps_leb_antisym a b : comps_leb a b = true -> comps_leb b a = true -> a = b.
+Proof.
+  unfold comps_leb. rewrite (comps_cmp_antisym a b). destruct (comps_cmp a b) eqn:E; simpl; try discriminate.
+  intros _ _. apply comps_cmp_eq. exact E.
+Qed.
+
+Lemma comps_leb_trans a b c : comps_leb a b = true -> comps_leb b c = true -> comps_leb a c = true.
+Proof.
+  unfold comps_leb. intros H1 H2.
+  destruct (comps_cmp a b) eqn:E1; try discriminate; destruct (comps_cmp b c) eqn:E2; try discriminate.
+  - apply comps_cmp_eq in E1. subst. rewrite E2. reflexivity.
+  - apply comps_cmp_eq in E1. subst. rewrite E2. reflexivity.
+  - apply comps_cmp_eq in E2. subst. rewrite E1. reflexivity.
+  - rewrite (comps_cmp_trans a b c Lt E1 E2). reflexivity.
+Qed.
+
+Lemma map_insert_sorted x l :
+  map components (insert_sorted path_leb x l) = insert_sorted comps_leb (components x) (map components l).
+Proof.
+  induction l as [|y l IH]; [reflexivity|]. cbn [insert_sorted map].
+  change (path_leb x y) with (comps_leb (components x) (components y)).
+  destruct (comps_leb (components x) (components y)); cbn [map]; [reflexivity|]. rewrite IH. reflexivity.
+Qed.
+
+Lemma map_sort_paths l : map components (sort_paths l) = stable_sort comps_leb (map components l).
+Proof.
+  unfold sort_paths. induction l as [|x l IH]; [reflexivity|]. cbn [stable_sort fold_right map].
+  change (fold_right (insert_sorted path_leb) [] l) with (stable_sort path_leb l).
+  rewrite map_insert_sorted, IH. reflexivity.
+Qed.
+
+(* the order in which the --extern files are hashed does not depend on the order of the --extern options: as
+   PATHS (component lists: what names a file) the sorted lists are equal, whatever the file names are *)
+Theorem extern_order_insensitive : forall l1 l2,
+  Permutation l1 l2 -> map components (sort_paths l1) = map components (sort_paths l2).
+Proof.
+  intros l1 l2 P. rewrite !map_sort_paths.
+  apply (stable_sort_canon comps_leb comps_leb_total comps_leb_trans comps_leb_antisym).
+  apply Permutation_map. exact P.
+Qed.
